@@ -1,6 +1,7 @@
 import Tau.Properties.C06
 import Tau.Properties.C01
 import Tau.Mapping
+import Tau.Properties.C14
 import Tau.Properties.C07
 import Tau.Proofs.Batch
 import Tau.Proofs.Shake0
@@ -599,4 +600,110 @@ theorem identifier_refines (y : Yaml) (e : Expr) (h : parseIdentifier E ic y = .
   | _ => simp [parseIdentifier] at h
 
 end
+end Tau.C02
+
+namespace Tau.C02
+open Tau
+
+/-! ### Rule level: a loaded rule evaluates to the documented meaning of its text -/
+
+def rawLookup : List (Str × Yaml) → Str → Option Yaml
+  | [], _ => none
+  | (k, v) :: rest, key => if k == key then some v else rawLookup rest key
+
+/-- Conditions without all()/of(). -/
+def Cond.noQ : Cond → Bool
+  | .id _ => true
+  | .not c => c.noQ
+  | .and a b => a.noQ && b.noQ
+  | .or a b => a.noQ && b.noQ
+  | .all _ => false
+  | .of _ _ => false
+
+theorem cons_lookup (E : RegexEngine) (ic : Bool) : ∀ (pre ids : Ids) (raw : List (Str × Yaml)),
+    C14.Cons E ic pre ids raw → ∀ i,
+      (lookupId ids i = none ∧ rawLookup raw i = none) ∨
+      (∃ b y, lookupId ids i = some b ∧ rawLookup raw i = some y ∧ parseIdentifier E ic y = .ok b)
+  | _, [], [], _, i => Or.inl ⟨rfl, rfl⟩
+  | _, [], _ :: _, h, _ => h.elim
+  | _, _ :: _, [], h, _ => by obtain ⟨k, e⟩ := ‹Str × Expr›; exact h.elim
+  | pre, (k, e) :: ids, (k', v) :: raw, h, i => by
+    obtain ⟨h1, h2, _, _, h5⟩ := h
+    subst h1
+    simp only [lookupId, rawLookup]
+    by_cases hk : (k == i) = true
+    · simp only [hk, if_true]
+      exact Or.inr ⟨e, v, rfl, rfl, h2⟩
+    · simp only [hk, Bool.false_eq_true, if_false]
+      exact cons_lookup E ic _ ids raw h5 i
+
+theorem rawLookup_mem (raw : List (Str × Yaml)) (i : Str) (y : Yaml) (h : rawLookup raw i = some y) :
+    (i, y) ∈ raw := by
+  induction raw with
+  | nil => simp [rawLookup] at h
+  | cons x xs ih =>
+    obtain ⟨k, v⟩ := x
+    simp only [rawLookup] at h
+    split at h
+    · rename_i hk; cases h; simp at hk; subst hk; simp
+    · exact List.mem_cons_of_mem _ (ih h)
+
+/-- The loader keeps raw and parsed identifiers consistent (from C14). -/
+theorem loaded_cons (E : RegexEngine) (ic : Bool) (entries : List (Str × Yaml)) (det : Detection)
+    (h : loadDetection E ic entries = .ok det) : C14.Cons E ic [] det.ids det.idsRaw := by
+  unfold loadDetection at h
+  cases h1 : loadEntries E ic entries {} with
+  | error e => rw [h1] at h; cases h
+  | ok st =>
+    rw [h1] at h
+    have hc := C14.loadEntries_cons E ic entries {} st trivial h1
+    simp only at h
+    split at h
+    · cases h
+    · split at h
+      · cases h
+      · split at h
+        · cases h
+        · split at h
+          · cases h
+          · split at h
+            · cases h
+            · cases h; exact hc
+
+/-- **A loaded rule means what its text says.** For a detection block that loads, whose condition
+    uses identifiers with and/or/not and whose identifier values use no all()/of() keys: on every
+    document the three-valued result of the rule is the documented table of the condition applied
+    to the denotational semantics of the identifier values as written (`semIdent` on the raw YAML). -/
+theorem rule_refines (E : RegexEngine) (ic : Bool) (entries : List (Str × Yaml)) (det : Detection)
+    (h : loadDetection E ic entries = .ok det) (c : Cond) (hc : det.expr = c.toExpr) (hnq : c.noQ = true)
+    (hids : ∀ p ∈ det.idsRaw, nqIdent p.2 = true) (doc : Doc) :
+    solveTop E det.ids doc det.expr =
+      Spec.cond (fun i => match rawLookup det.idsRaw i with
+                          | some y => semIdent E ic closedK y doc
+                          | none => .m) (fun _ => []) c := by
+  have hcons := loaded_cons E ic entries det h
+  rw [hc]
+  clear hc
+  induction c with
+  | id i =>
+    simp only [Cond.toExpr, Spec.cond, solveTop, solveG, topK]
+    rcases cons_lookup E ic [] det.ids det.idsRaw hcons i with ⟨h1, h2⟩ | ⟨b, y, h1, h2, h3⟩
+    · simp only [h1, h2]
+    · simp only [h1, h2]
+      exact identifier_refines E ic closedK y b h3 (hids (i, y) (rawLookup_mem _ i y h2)) doc
+  | not c ih =>
+    simp only [Cond.noQ] at hnq
+    simp only [Cond.toExpr, Spec.cond, ← ih hnq]
+    simp [solveTop, solveG]
+  | and a b iha ihb =>
+    simp only [Cond.noQ, Bool.and_eq_true] at hnq
+    simp only [Cond.toExpr, Spec.cond, ← iha hnq.1, ← ihb hnq.2]
+    simp [solveTop, solveG, binAnd_eq]
+  | or a b iha ihb =>
+    simp only [Cond.noQ, Bool.and_eq_true] at hnq
+    simp only [Cond.toExpr, Spec.cond, ← iha hnq.1, ← ihb hnq.2]
+    simp [solveTop, solveG, binOr_eq]
+  | all i => simp [Cond.noQ] at hnq
+  | of i n => simp [Cond.noQ] at hnq
+
 end Tau.C02
